@@ -12,6 +12,8 @@ use std::collections::BTreeMap;
 #[derive(Clone, Debug)]
 enum Item {
     Text(String),
+    /// `{{ flaky() }}`: prints nothing, but the call with the configured number fails
+    Flaky,
     Super,
     Block(String, Vec<Item>),
 }
@@ -39,6 +41,7 @@ fn items_src(items: &[Item]) -> String {
     for it in items {
         match it {
             Item::Text(t) => s.push_str(t),
+            Item::Flaky => s.push_str("{{ flaky() }}"),
             Item::Super => s.push_str("{{ super() }}"),
             Item::Block(n, body) => {
                 s.push_str(&format!("{{% block {} %}}", n));
@@ -54,8 +57,14 @@ fn tmpl_src(t: &Tmpl) -> String {
     format!("{}{}", t.extends_src, items_src(&t.top))
 }
 
-/// expected output of rendering templates[0]; Err = the render must fail
-fn resolve(templates: &[Tmpl]) -> Result<String, String> {
+/// what the flaky() calls do: the call with number `fail_at` (1-based, counted over the whole life of
+/// the state) fails, every other one prints nothing
+struct Flaky {
+    calls: u32,
+    fail_at: u32,
+}
+
+fn block_defs(templates: &[Tmpl]) -> Result<(Vec<usize>, BTreeMap<String, Vec<Vec<Item>>>), String> {
     // chain from most derived to root
     let mut chain = vec![0usize];
     while let Some(p) = templates[*chain.last().unwrap()].parent {
@@ -72,28 +81,51 @@ fn resolve(templates: &[Tmpl]) -> Result<String, String> {
             defs.entry(n).or_default().push(body);
         }
     }
-    fn render_block(name: &str, depth: usize, defs: &BTreeMap<String, Vec<Vec<Item>>>, out: &mut String) -> Result<(), String> {
-        let body = defs.get(name).and_then(|d| d.get(depth)).ok_or_else(|| "no parent block exists".to_string())?;
-        for it in body {
-            match it {
-                Item::Text(t) => out.push_str(t),
-                Item::Super => render_block(name, depth + 1, defs, out)?,
-                // a block tag inside a block body renders the most derived definition of that block
-                Item::Block(n, _) => render_block(n, 0, defs, out)?,
+    Ok((chain, defs))
+}
+
+fn render_block_ref(name: &str, depth: usize, defs: &BTreeMap<String, Vec<Vec<Item>>>, out: &mut String, fl: &mut Flaky) -> Result<(), String> {
+    let body = defs.get(name).and_then(|d| d.get(depth)).ok_or_else(|| "no parent block exists".to_string())?;
+    for it in body {
+        match it {
+            Item::Text(t) => out.push_str(t),
+            Item::Flaky => {
+                fl.calls += 1;
+                if fl.calls == fl.fail_at {
+                    return Err("flaky".into());
+                }
             }
+            Item::Super => render_block_ref(name, depth + 1, defs, out, fl)?,
+            // a block tag inside a block body renders the most derived definition of that block
+            Item::Block(n, _) => render_block_ref(n, 0, defs, out, fl)?,
         }
-        Ok(())
     }
+    Ok(())
+}
+
+fn resolve_with(templates: &[Tmpl], fl: &mut Flaky) -> Result<String, String> {
+    let (chain, defs) = block_defs(templates)?;
     let root = &templates[*chain.last().unwrap()];
     let mut out = String::new();
     for it in &root.top {
         match it {
             Item::Text(t) => out.push_str(t),
+            Item::Flaky => {
+                fl.calls += 1;
+                if fl.calls == fl.fail_at {
+                    return Err("flaky".into());
+                }
+            }
             Item::Super => return Err("super outside of block".into()),
-            Item::Block(n, _) => render_block(n, 0, &defs, &mut out)?,
+            Item::Block(n, _) => render_block_ref(n, 0, &defs, &mut out, fl)?,
         }
     }
     Ok(out)
+}
+
+/// expected output of rendering templates[0]; Err = the render must fail
+fn resolve(templates: &[Tmpl]) -> Result<String, String> {
+    resolve_with(templates, &mut Flaky { calls: 0, fail_at: 0 })
 }
 
 // ---------------------------------------------------------------------------------------------
@@ -235,6 +267,89 @@ fn check_chain(len: usize, code: u64, with_c: bool, form: ExtForm, reach: usize,
         (Ok(Err(_)), Err(_)) => l.outcome("both fail (super without parent)"),
         (Ok(Err(k)), Ok(b)) => acc.fail(mk("engine_fails", format!("engine error {:?} but resolver renders {:?}", k, b))),
         (Ok(Ok(a)), Err(why)) => acc.fail(mk("engine_succeeds", format!("engine renders {:?} but the chain must fail: {}", a, why))),
+    }
+}
+
+/// block fragments through a reused state: after a full render the embedder renders single blocks
+/// through the same state, each twice, once with a call in the root's block `a` that fails exactly
+/// once; a fragment that failed must leave the state as it was
+fn check_fragments(len: usize, code: u64, with_c: bool, fail_at: u32, acc: &Acc, l: &mut Local) {
+    let mut templates = build_chain(len, code, with_c, ExtForm::Static);
+    // the root's block a gets the flaky call behind its own text
+    let root = templates.len() - 1;
+    for it in templates[root].top.iter_mut() {
+        if let Item::Block(n, body) = it {
+            if n == "a" {
+                body.push(Item::Flaky);
+            }
+        }
+    }
+    l.evals += 1;
+    // reference: the same counter runs through the full render and the fragments that follow
+    let mut fl = Flaky { calls: 0, fail_at };
+    let want_main = resolve_with(&templates, &mut fl);
+    let mut want = vec![];
+    if want_main.is_ok() {
+        if let Ok((_, defs)) = block_defs(&templates) {
+            for name in ["a", "b", "c", "a", "b"] {
+                let mut out = String::new();
+                let r = render_block_ref(name, 0, &defs, &mut out, &mut fl).map(|_| out);
+                want.push((name, if defs.contains_key(name) { r } else { Err("unknown block".into()) }));
+            }
+        }
+    }
+    let got = catch(|| {
+        let mut env = Environment::new();
+        let calls = std::sync::Arc::new(std::sync::atomic::AtomicU32::new(0));
+        env.add_function("flaky", move || -> Result<String, minijinja::Error> {
+            let n = calls.fetch_add(1, std::sync::atomic::Ordering::SeqCst) + 1;
+            if n == fail_at {
+                Err(minijinja::Error::new(ErrorKind::InvalidOperation, "flaky"))
+            } else {
+                Ok(String::new())
+            }
+        });
+        for t in &templates {
+            env.add_template_owned(t.name.clone(), tmpl_src(t)).map_err(|e| format!("{:?}", e.kind()))?;
+        }
+        let tm = env.get_template("t0").map_err(|e| format!("{:?}", e.kind()))?;
+        let mut cap = tm.render_captured(context! { parent => "t1", yes => true, no => false }).map_err(|e| format!("{:?}", e.kind()))?;
+        let mut frags = vec![];
+        for name in ["a", "b", "c", "a", "b"] {
+            frags.push((name, cap.with_state_mut(|st| st.render_block(name)).map_err(|e| format!("{:?}", e.kind()))));
+        }
+        Ok::<_, String>((cap.output().to_string(), frags))
+    });
+    let mk = |clause: &str, detail: String| Failure {
+        key: format!("inheritance fragments_{} chain_len={} flaky_call={}", clause, len, fail_at),
+        case: format!("len={} code={} with_c={} fail_at={}", len, code, with_c, fail_at),
+        detail,
+        replay: json!({"kind": "fragments", "len": len, "code": code, "with_c": with_c, "fail_at": fail_at, "templates": templates.iter().map(|t| (t.name.clone(), tmpl_src(t))).collect::<Vec<_>>()}),
+    };
+    match (got, want_main) {
+        (Err(p), _) => acc.fail(mk("panic", format!("{} at {}", p, last_panic_loc()))),
+        (Ok(Err(_)), Err(_)) => l.outcome("full render fails as resolved"),
+        (Ok(Err(e)), Ok(w)) => acc.fail(mk("engine_fails", format!("full render fails with {} but resolves to {:?}", e, w))),
+        (Ok(Ok((out, _))), Err(why)) => acc.fail(mk("engine_succeeds", format!("full render gives {:?} but must fail: {}", out, why))),
+        (Ok(Ok((out, frags))), Ok(w)) => {
+            if out != w {
+                acc.fail(mk("output_differs", format!("full render {:?} but resolver {:?}", out, w)));
+                return;
+            }
+            for ((name, g), (_, e)) in frags.iter().zip(want.iter()) {
+                let same = match (g, e) {
+                    (Ok(a), Ok(b)) => a == b,
+                    (Err(_), Err(_)) => true,
+                    _ => false,
+                };
+                if !same {
+                    acc.fail(mk("differ", format!("fragments in order a, b, c, a, b: engine {:?} but resolver {:?} (first difference at block {})", frags, want, name)));
+                    return;
+                }
+            }
+            l.outcome("fragments through the reused state as resolved");
+            l.nontrivial.insert(fnv(format!("frag|{}|{}|{}|{}", len, code, with_c, fail_at).as_bytes()));
+        }
     }
 }
 
@@ -404,6 +519,19 @@ pub fn main(args: Args) -> i32 {
             }
         });
     }
+    // block fragments through a reused state, with a call that fails once at every position
+    for len in 1..=args.tier.pick(2usize, 3usize) {
+        let codes = (MODES as u64).pow(3 * (len as u32 - 1));
+        par_chunks(codes, 64, &acc, |r, l| {
+            for code in r {
+                for with_c in [true, false] {
+                    for fail_at in 0..=6u32 {
+                        check_fragments(len, code, with_c, fail_at, &acc, l);
+                    }
+                }
+            }
+        });
+    }
     // include / import / error families
     for c in fixed_cases() {
         acc.eval(1);
@@ -468,7 +596,7 @@ pub fn main(args: Args) -> i32 {
             level: "exploration",
             tier: args.tier,
             seed: args.seed,
-            rule: format!("all inheritance chains of length 1..={} in which every non-root template assigns each block of the alphabet {{a, b (nested in a in the root), c}} one of {{absent, override, override + super() before, override around super(), super() twice}} (5^3 per level), x root with/without block c, x extends form of the most derived template (static name, name from the context, inside a taken if, inside a not-taken if), x 9 ways of reaching the most derived template for chains up to length {} (rendered directly; included at top level, in a child block, in a macro called twice, in a loop body; include captured by a set block in a plain host and at the top level of an extending host, there also below a filter block and below a call block); expected output from a 60-line resolver (most derived definition, per-block parent cursor for super(), nested block tags render the most derived definition, text outside blocks of extending templates discarded, super() without parent fails); plus 50 hand-written include / import / error cases (include placements and name forms incl. lists and ignore missing, what an import exposes, extends and include cycles of length 1..3, double extends, missing parent, super() without parent or outside a block, required blocks, self.block()) each run under a 10 s wall cap so that a hang is a failure; every fixed case that renders is also included 120 times from one host render and must give its output 120 times. distinct non-trivial = chains that render as resolved + fixed cases", max_len, reach_len),
+            rule: format!("all inheritance chains of length 1..={} in which every non-root template assigns each block of the alphabet {{a, b (nested in a in the root), c}} one of {{absent, override, override + super() before, override around super(), super() twice}} (5^3 per level), x root with/without block c, x extends form of the most derived template (static name, name from the context, inside a taken if, inside a not-taken if), x 9 ways of reaching the most derived template for chains up to length {} (rendered directly; included at top level, in a child block, in a macro called twice, in a loop body; include captured by a set block in a plain host and at the top level of an extending host, there also below a filter block and below a call block); expected output from a 60-line resolver (most derived definition, per-block parent cursor for super(), nested block tags render the most derived definition, text outside blocks of extending templates discarded, super() without parent fails); plus block fragments through a reused state (after a full render of every chain up to length {} the blocks a, b, c, a, b are rendered through State::render_block, with a call in the root's block a that fails exactly once at every position 1..6 or never; every fragment must equal the resolver's, and a fragment that failed must leave the state as it was); plus 50 hand-written include / import / error cases (include placements and name forms incl. lists and ignore missing, what an import exposes, extends and include cycles of length 1..3, double extends, missing parent, super() without parent or outside a block, required blocks, self.block()) each run under a 10 s wall cap so that a hang is a failure; every fixed case that renders is also included 120 times from one host render and must give its output 120 times. distinct non-trivial = chains that render as resolved + fixed cases", max_len, reach_len, args.tier.pick(2, 3)),
             exhaustive: true,
             bound: json!({"max_chain_len": max_len, "modes": ["absent", "override", "super_before", "super_inside", "super_twice"]}),
             assumptions: vec!["the resolver in c06.rs is the trusted base for chains; the expectations of the fixed cases were written by hand from the documentation".into()],
